@@ -415,6 +415,23 @@ impl<'a> SRun<'a> {
                 ev(if want { "Refuse" } else { "Accept" }, String::new());
                 self.settle(None).await;
             }
+            Op::Fault(f) => {
+                let (sn, _dn) = S_FLOWS[*f - 1];
+                match (self.live.contains(sn), self.net.addr_of.get(sn).copied(), self.net.up()) {
+                    (true, Some(assoc_socket), true) if icmp_available() => {
+                        ev("Fault", format!("\"f\":{},\"code\":13", f));
+                        if let Err(e) = send_icmp_unreachable(13, assoc_socket, self.net.relay_addr) {
+                            self.problems.push(("c07:raw-socket".into(), format!("forging the ICMP error failed: {}", e)));
+                        }
+                        std::thread::sleep(Duration::from_micros(300));
+                        self.settle(None).await;
+                    }
+                    _ => {
+                        self.skipped += 1;
+                        return;
+                    }
+                }
+            }
             Op::Hold | Op::Release => {
                 let want = matches!(op, Op::Hold);
                 if self.net.hold.load(Ordering::SeqCst) == want {
@@ -559,7 +576,7 @@ pub fn random_ops(rng: &mut StdRng) -> Vec<Op> {
     // flows 1..3 share the source a: most of the traffic is there
     let flow = |rng: &mut StdRng| if rng.gen_range(0..5) > 0 { rng.gen_range(1..=3) } else { 4 };
     while ops.len() < n {
-        match rng.gen_range(0..26) {
+        match rng.gen_range(0..28) {
             0..=6 => ops.push(Op::D(flow(rng))),
             7..=8 => {
                 let f = flow(rng);
@@ -623,6 +640,21 @@ pub fn random_ops(rng: &mut StdRng) -> Vec<Op> {
                 ops.push(Op::Up("relay"));
                 ops.push(Op::R(f));
                 ops.push(Op::D(f));
+            }
+            26 => {
+                // an ICMP "administratively prohibited" about the association's datagrams: met by the
+                // next send on that association, or by the reader when the relay forwards a reply first
+                let f = flow(rng);
+                ops.push(Op::D(f));
+                ops.push(Op::Fault(f));
+                if rng.gen() {
+                    ops.push(Op::D(f));
+                } else {
+                    ops.push(Op::R(f));
+                }
+                ops.push(Op::D(f));
+                ops.push(Op::R(f));
+                ops.push(Op::D(4));
             }
             24 => {
                 // the handshake of a fresh association is held across one or more expiry ticks
